@@ -50,26 +50,43 @@ ASSUMPTIONS = ['the equations of the neutron_scattering docstring are the specif
 
 REL = 1e-10
 _state = {}
-_post = {'calls': 0, 'clip_active': 0, 'fail': []}
+_post = {'calls': 0, 'clip_active': 0, 'fail': [], 'contract._calculate_scattering.unrecognised_call': 0,
+         'contract._calculate_scattering.unrecognised_result': 0}
 BUFFER_OPS = {'array': ('refill', 'refill', 'scale', 'scale', 'shift', 'item', 'item', 'reverse'),
               'list': ('refill', 'refill', 'resize', 'scale', 'shift', 'item', 'item', 'reverse', 'append')}
 
 
 # ------------------------------------------------------------------ setup / monitors
-def _wrap_calculate(nsf):
-    """Hand-written postcondition on nsf._calculate_scattering (fires on internal calls: the callers look the
-    name up in the module globals)."""
+def _wrap_calculate(ctx, nsf):
+    """Hand-written postcondition on the PRIVATE nsf._calculate_scattering (fires on internal calls: the callers
+    look the name up in the module globals).  Optional instrumentation: when the function is absent, takes other
+    arguments or returns another structure in this tree, the call is passed through un-judged and counted; the
+    reference-model comparison of the public results does not depend on it.  Returns the original function or None."""
     import numpy as np
-    orig = nsf._calculate_scattering
-    if getattr(orig, '_pvmon_wrapped', False):
-        return orig._pvmon_orig
+    from ..ref.neutron import private, tolerant
+    orig = private(ctx, nsf, '_calculate_scattering',
+                   ['postcondition.evaluations', 'postcondition.clip_active', 'reach.line.incoherent_clip'])
+    if orig is None:
+        return None
+    if getattr(orig, '_pvmon_c03', False):
+        return orig._pvmon_original
     k = 4 * math.pi / 100
 
-    def _calculate_scattering_checked(number_density, wavelength, b_c, sigma_s):
-        w0 = np.array(wavelength, dtype=float, copy=True)
-        b0 = np.array(b_c, dtype=complex, copy=True)
-        s0 = np.array(sigma_s, dtype=float, copy=True)
-        out = orig(number_density, wavelength, b_c, sigma_s)
+    def _calculate_scattering_judged(number_density, wavelength, b_c, sigma_s, _call):
+        try:
+            w0 = np.array(wavelength, dtype=float, copy=True)
+            b0 = np.array(b_c, dtype=complex, copy=True)
+            s0 = np.array(sigma_s, dtype=float, copy=True)
+            nd = float(number_density)
+        except Exception:                      # arguments of another kind than the ones this contract knows
+            _post['contract._calculate_scattering.unrecognised_call'] += 1
+            return _call()
+        out = _call()
+        try:
+            (sre, sim, sinc), (coh, ab, inc), pen = out
+        except Exception:                      # a private function may return what it likes: not judged
+            _post['contract._calculate_scattering.unrecognised_result'] += 1
+            return out
         _post['calls'] += 1
         fails = []
         try:
@@ -77,12 +94,11 @@ def _wrap_calculate(nsf):
                     np.array_equal(b0, np.asarray(b_c, dtype=complex)) and
                     np.array_equal(s0, np.asarray(sigma_s, dtype=float))):
                 fails.append('an input array was modified')
-            (sre, sim, sinc), (coh, ab, inc), pen = out
             for name, v in (('sld_im', sim), ('sld_inc', sinc), ('coh_xs', coh), ('abs_xs', ab), ('inc_xs', inc),
                             ('penetration', pen)):
                 if not np.all(np.asarray(v, dtype=float) >= 0):
                     fails.append('%s = %r is not >= 0' % (name, v))
-            total = number_density * s0
+            total = nd * s0
             prod = np.asarray(pen, dtype=float) * (np.asarray(ab, dtype=float) + total)
             if not np.all(np.abs(prod - 1) <= 1e-12):
                 fails.append('penetration*(abs_xs + N sigma_s) = %r, not 1' % (prod,))
@@ -91,14 +107,15 @@ def _wrap_calculate(nsf):
         except Exception as exc:   # malformed output: report, never hide
             fails.append('postcondition could not be evaluated: %r' % (exc,))
         if fails:
-            _post['fail'].append({'what': fails[:4], 'number_density': float(number_density),
+            _post['fail'].append({'what': fails[:4], 'number_density': nd,
                                   'wavelength': repr(wavelength)[:120], 'b_c': repr(b_c)[:160],
                                   'sigma_s': repr(sigma_s)[:120]})
         return out
 
-    _calculate_scattering_checked._pvmon_wrapped = True
-    _calculate_scattering_checked._pvmon_orig = orig
-    nsf._calculate_scattering = _calculate_scattering_checked
+    checked = tolerant(orig, ('number_density', 'wavelength', 'b_c', 'sigma_s'), _calculate_scattering_judged,
+                       _post, 'contract._calculate_scattering')
+    checked._pvmon_c03 = True
+    nsf._calculate_scattering = checked
     return orig
 
 
@@ -109,19 +126,19 @@ def setup(ctx):
     from ..ref.neutron import NeutronModel
     pt.elements.Fe.neutron          # public neutron group loaded by first touch
     m = _state['model'] = NeutronModel()
-    orig = _wrap_calculate(nsf)
+    from ..ref.neutron import watch_entry, watch_lines
+    orig = _wrap_calculate(ctx, nsf)             # None when this tree has no nsf._calculate_scattering
     reach = Reach()
-    reach.watch(inspect.unwrap(nsf.neutron_scattering), 'neutron_scattering')
-    reach.watch(inspect.unwrap(nsf.Neutron.scattering), 'Neutron.scattering')
-    reach.watch(nsf.Neutron.scattering_by_wavelength, 'scattering_by_wavelength')
-    reach.watch(orig, '_calculate_scattering')
-    for func, text, label in ((nsf.Neutron.scattering_by_wavelength, 'return ones*self.b_c_complex', 'branch.constant'),
-                              (nsf.Neutron.scattering_by_wavelength, 'np.interp(', 'branch.table'),
-                              (orig, 'np.maximum(', 'line.incoherent_clip')):
-        try:
-            reach.watch_line_matching(func, text, label)
-        except LookupError as exc:
-            ctx.note('branch line not found (%s): %s' % (label, exc))
+    watch_entry(ctx, reach, nsf.neutron_scattering, 'neutron_scattering')
+    watch_entry(ctx, reach, nsf.Neutron.scattering, 'Neutron.scattering')
+    watch_entry(ctx, reach, nsf.Neutron.scattering_by_wavelength, 'scattering_by_wavelength', requirements=[])
+    if orig is not None:
+        watch_entry(ctx, reach, orig, '_calculate_scattering', requirements=[])
+    # line anchors inside function bodies are optional: a body written differently waives the counter (reach.missing)
+    for func, texts, label in ((nsf.Neutron.scattering_by_wavelength, ('return ones*self.b_c_complex',), 'branch.constant'),
+                               (nsf.Neutron.scattering_by_wavelength, ('np.interp(',), 'branch.table'),
+                               (orig, ('np.maximum(',), 'line.incoherent_clip')):
+        watch_lines(ctx, reach, func, texts, label)
     reach.start()
     _state['reach'] = reach
     _state['fp'] = FPMonitor().start()
